@@ -34,6 +34,8 @@ def check(model, R, tier):
     check_axis(model, R, 'C05', scope='forward')
     check_reject(model, R, ops)
     check_operators(model, R)
+    from sa import rules_kernel as _K
+    _K.check_numpy_contracts(model, R, 'C05')
     check_iter(model, R)
     check_squeeze(model, R)
     check_ctor(model, R)
